@@ -348,6 +348,21 @@ func (n *Node) dial(target *Node) *grpc.ClientConn {
 }
 
 var (
+	// HarnessOut is the process's real standard output; os.Stdout itself is pointed at /dev/null once a world exists,
+	// because the stdout audit recorder prints every event there
+	HarnessOut  = os.Stdout
+	silenceOnce sync.Once
+)
+
+func silenceStdout() {
+	silenceOnce.Do(func() {
+		if f, err := os.OpenFile(os.DevNull, os.O_WRONLY, 0); err == nil {
+			os.Stdout = f
+		}
+	})
+}
+
+var (
 	certOnce sync.Once
 	certVal  *tls.Certificate
 )
@@ -518,7 +533,10 @@ func (w *World) newNode(id uint64, o NodeOpts) *Node {
 	}
 	n.Log = &logProxy{w: w, node: n, inner: inner}
 	n.Bcast = &memberlist.TransmitLimitedQueue{RetransmitMult: 1, NumNodes: func() int { return 1 }}
-	n.DState = distributed.NewState(id, n.Bcast, audit.NoneRecorder())
+	// the broker's default audit recorder (stdout). With the harness's short session identifiers every RecordEvent call
+	// returns an error (its template slices the identifier): an audit sink that fails must not change what the broker does
+	silenceStdout()
+	n.DState = distributed.NewState(id, n.Bcast, audit.StdoutRecorder())
 	n.Local = wasp.NewState(id)
 	n.Dist = &wasp.PublishDistributor{ID: id, State: n.DState.Subscriptions(), Storage: n.Log, Logger: zap.NewNop(), Transport: &harnessTransport{w: w, from: n}}
 	n.Members = wasp.NewNodeMemberManager(id, n.Log, n.DState)
